@@ -18,7 +18,7 @@ function, method (with receiver kind), package variable and constant, its numeri
 package variables it reads and its writes through parameters or the receiver (including in-place
 `sort.*`/`copy`/`append`). The entries behind the digest are in `shape_expected.txt` and in a
 comment of the generated file. -/
-def stateC10 : List (String × String) := [("globals:stats", "ErrMismatchedSamples ErrSampleSize ErrSamplesEqual ErrZeroVariance MannWhitneyExactLimit MannWhitneyTiesExactLimit StdNormal _KDEBoundaryMethod_index _KDEKernel_index _LocationHypothesis_index inf nan quantileCIApproxThreshold"), ("globalwrites:stats", "MannWhitneyUTest:StdNormal.CDF"), ("fields:stats.Sample", "Xs:[]float64 Weights:[]float64 Sorted:bool"), ("fields:stats.sampleSorter", "xs:[]float64 weights:[]float64"), ("shape:C10", "n=75 fnv64a=835834c0d6b59b61")]
+def stateC10 : List (String × String) := [("globals:stats", "ErrMismatchedSamples ErrSampleSize ErrSamplesEqual ErrZeroVariance MannWhitneyExactLimit MannWhitneyTiesExactLimit StdNormal _KDEBoundaryMethod_index _KDEKernel_index _LocationHypothesis_index inf nan quantileCIApproxThreshold"), ("globalwrites:stats", "MannWhitneyUTest:StdNormal.CDF"), ("fields:stats.Sample", "Xs:[]float64 Weights:[]float64 Sorted:bool"), ("fields:stats.sampleSorter", "xs:[]float64 weights:[]float64"), ("shape:C10", "n=75 fnv64a=83acc6eb95d02efa")]
 
 /-- the source has exactly the package-level variables, writers and struct fields the model accounts for -/
 theorem state_C10 : holdsAll stateC10 = true := by decide +kernel
